@@ -32,7 +32,8 @@ VALUES = {
 DEFAULT = {"float_type": "float64", "decimals": 3, "atol": 1e-3, "rtol": 0.0, "alias": "fl",
            "logger": "L0", "factory_manager": "F0"}
 FLOAT_TYPES = {"float64": np.float64, "float32": np.float32, "float16": np.float16, "float": float}
-OBS = ["str", "close", "dtype", "alias", "fm", "logger", "rule", "fll", "vars"]
+OBS = ["str", "close", "dtype", "alias", "fm", "logger", "rule", "fll", "vars", "arr", "fld", "fld_late", "mkexp", "ruletext",
+       "termparams", "tofloat", "xy"]
 
 _POOL: dict[str, object] = {}
 
@@ -90,6 +91,23 @@ def tiny_engine():
     return _ENGINE
 
 
+_TS = None
+
+
+def ts_engine():
+    """Takagi-Sugeno engine whose output for input 0.5 is exactly 0.25 in every float type."""
+    global _TS
+    if _TS is None:
+        _TS = fl.Engine(
+            "ts",
+            input_variables=[fl.InputVariable("a", minimum=0, maximum=1, terms=[fl.Triangle("x", 0, 0.5, 1)])],
+            output_variables=[fl.OutputVariable("b", minimum=0, maximum=1, terms=[fl.Constant("k", 0.25)],
+                                                defuzzifier=fl.WeightedAverage())],
+            rule_blocks=[fl.RuleBlock("r", activation=fl.General(), rules=[fl.Rule.create("if a is x then b is k")])],
+        )
+    return _TS
+
+
 class _Abort(BaseException):
     pass
 
@@ -142,6 +160,9 @@ class Interp:
         self.log = [] if keep_log else None
         self.positions: list[int] = []  # try depth at each dynamic position (for enumeration)
         self.sig: list[str] = []
+        ts_engine()
+        self.persistent_exporter = fl.FldExporter()  # created outside every context of the program
+        self.late_exporter = None
 
     # ---- logging / oracles -------------------------------------------------
     def emit(self, line: str) -> None:
@@ -384,6 +405,35 @@ class Interp:
             return got, f"term: t Triangle {1 / 3:.{d}f} {2 / 3:.{d}f} {1.0:.{d}f}"
         if what == "vars":
             return True, True
+        a = m["alias"]
+        lib = "fuzzylite.library." if a == "" else ("" if a == "*" else a + ".")
+        d = m["decimals"]
+        close = lambda x, y: abs(x - y) <= m["atol"] + m["rtol"] * abs(y)  # noqa: E731
+        if what == "arr":
+            return fl.repr(np.array([1.0, 2.0])), f"{lib}array([1.0, 2.0])"
+        if what in ("fld", "fld_late", "mkexp"):
+            import io
+            if what == "mkexp":  # create a long-lived helper object under the settings of *this* moment
+                self.late_exporter = fl.FldExporter()
+                return True, True
+            exp = self.persistent_exporter if what == "fld" else (self.late_exporter or fl.FldExporter())
+            if what == "fld_late" and self.late_exporter is not None:
+                self.out.stats.hit("probes.helper_created_under_other_settings_used_now")
+            got = exp.to_string_from_reader(ts_engine(), io.StringIO("0.5\n"))
+            return got, f"a b\n{0.5:.{d}f} {0.25:.{d}f}\n"
+        if what == "ruletext":
+            w = 0.9995
+            r = fl.Rule.create(f"if a is x then b is y with {w}")
+            return r.text, "if a is x then b is y" + ("" if close(w, 1.0) else f" with {w:.{d}f}")
+        if what == "termparams":
+            h = 0.9995
+            t = fl.Triangle("t", 0.0, 0.5, 1.0, height=h)
+            return str(t), f"term: t Triangle {0.0:.{d}f} {0.5:.{d}f} {1.0:.{d}f}" + ("" if close(h, 1.0) else f" {h:.{d}f}")
+        if what == "tofloat":
+            ft = FLOAT_TYPES[m["float_type"]]
+            return type(fl.to_float(1)).__name__, ft.__name__
+        if what == "xy":
+            return str(fl.Discrete.to_xy([0.0, 1.0], [0.5, 1.0]).dtype), str(np.dtype(FLOAT_TYPES[m["float_type"]]))
         raise AssertionError(what)
 
 
@@ -411,7 +461,7 @@ class C20(Sim):
         "depth4_reached", "same_key_in_nested_contexts", "assign_inside_context", "falsy_value_set",
         "base_exception_exit", "early_exit_return_break_continue", "exception_passed_a_try_level",
         "rule_loaded_through_swapped_factory", "raise_inside_context", "observation_inside_context",
-        "assign_named_key_rolled_back", "assign_unnamed_key_persists",
+        "assign_named_key_rolled_back", "assign_unnamed_key_persists", "helper_created_under_other_settings_used_now",
     ]
 
     # ---- generation --------------------------------------------------------
@@ -494,7 +544,7 @@ class C20(Sim):
 
             def walk(stmts, path):
                 for i, s in enumerate(stmts):
-                    if s["k"] == "obs" and s["what"] in ("str", "close", "alias", "fll", "rule", "dtype"):
+                    if s["k"] == "obs" and s["what"] in ("str", "close", "alias", "fll", "rule", "dtype", "arr", "fld", "ruletext", "termparams"):
                         paths.append(path + [i])
                     if "body" in s:
                         walk(s["body"], path + [i])
